@@ -8,7 +8,7 @@ from . import verus
 def run(units, rlimit):
     out = []
     for u in units:
-        res, ex = verus.run_unit(u, rlimit=rlimit, variant="vacuity")
+        res, ex = verus._run_unit_once(u, rlimit=rlimit, variant="vacuity")
         if res.status == "undecided" and not res.failures:
             out.append({"unit": u, "status": "undecided", "reason": res.reason})
             continue
